@@ -268,4 +268,31 @@ PROPS = {
             "exhaustive.enc.IgmpMembershipQueryWithSources.qrv": 8, "igmp_setters.ok": 68096, "ipv6_tc_setters.ok": 17408,
         },
     },
+    "C09": {
+        "level": "exploration",
+        "rule": "helper level: Sum16BitWords / u32_16bit_word / u64_16bit_word over all lengths 0..=70 x alignments 0..7 x 7 structured contents "
+                "(exhaustive) with every subset of even cut points (short data) or all 1-/2-cut splits, arbitrary start accumulators incl. "
+                "values at the 32/64 bit carry boundary, add_2/4/8/16bytes decompositions, random data up to 64 KiB; header level: IPv4 "
+                "header, UDP/TCP over IPv4/IPv6 from structs and slices, ICMPv4, ICMPv6 (+ is_checksum_valid on valid / one-bit-off / random "
+                "messages), IGMP, TransportHeader::update_checksum_*, PacketBuilder output; computed-zero UDP cases are constructed; oracle = "
+                "independent RFC 1071 sum + pseudo header composers (refmodel/checksum.rs); distinct = distinct (routine, length class, "
+                "alignment, carry class) signatures",
+        "assumptions": COMMON_ASSUME + [
+            "helper results are compared in memory order (the crate's documented convention: callers apply to_be())",
+            "UDP over IPv6 jumbograms and TCP/ICMPv6 lengths above ~70000 bytes are not judged here (C14 probes the limits)",
+        ],
+        "runs": {"quick": [dict(CHK)], "thorough": [dict(CHK)]},
+        "mandatory": {
+            "helper_exh.cases": 7952, "helper_rand.cases": 200000, "checked.u64_16bit_word.ones_complement": 20736,
+            "splits.all_subsets_cases": 2576, "checked.split_sequences": 10000000, "agree.32_vs_64": 800000,
+            "carry.out_of_32bit": 400000, "carry.out_of_64bit": 300000, "udp.computed_zero_cases": 150000,
+            "builder.udp_computed_zero_cases": 20000, "tcp.computed_zero_cases": 50000, "is_checksum_valid.true_seen": 600000,
+            "is_checksum_valid.false_seen": 300000, "checked.Ipv4Header::calc_header_checksum": 1000000,
+            "checked.UdpHeader::with_ipv4_checksum": 400000, "checked.UdpHeader::with_ipv6_checksum": 400000,
+            "checked.TcpHeader::calc_checksum_ipv4": 300000, "checked.TcpSlice::calc_checksum_ipv6": 300000,
+            "checked.Icmpv4Header::with_checksum": 700000, "checked.Icmpv6Header::with_checksum": 550000,
+            "checked.IgmpHeader::with_checksum": 500000, "checked.TransportHeader::update_checksum_*": 500000,
+            "checked.PacketBuilder*": 800000,
+        },
+    },
 }
